@@ -47,3 +47,29 @@ func verifCloneRange(dst, src *os.File, srcOffset, srcLength, dstOffset uint64) 
 	}
 	return VerifCloneRangeHook(dst, src, srcOffset, srcLength, dstOffset), true
 }
+
+// VerifTraceBegin and VerifTraceEnd, when set, are called around the non-blocking channel
+// operations of the parallel chunker (Begin before, End after, with the event just performed);
+// VerifTraceEnd alone is called for events that are not bracketed (begun == false).
+var (
+	VerifTraceBegin func()
+	VerifTraceEnd   func(begun bool, ev string, a, b, c uint64)
+)
+
+func verifAtomicBegin() {
+	if f := VerifTraceBegin; f != nil {
+		f()
+	}
+}
+
+func verifAtomicEnd(ev string, a, b, c uint64) {
+	if f := VerifTraceEnd; f != nil {
+		f(true, ev, a, b, c)
+	}
+}
+
+func verifTrace(ev string, a, b, c uint64) {
+	if f := VerifTraceEnd; f != nil {
+		f(false, ev, a, b, c)
+	}
+}
